@@ -61,9 +61,9 @@ def run(ctx):
                       {'finding_key': plan_common.KEY_OVERRIDE, 'cmd': 'echo "%s" | build/harness/h_parfor-*' % wline, 'observed': best})
     ctx.phase('witness')
 
-    nplan = 250 if ctx.quick else 6000
-    npf = 150 if ctx.quick else 4000
-    nfe = 150 if ctx.quick else 3000
+    nplan = 180 if ctx.quick else 6000
+    npf = 130 if ctx.quick else 4000
+    nfe = 120 if ctx.quick else 3000
     cfgs_plan = plan_common.gen_cases(ctx, nplan, True)
     cfgs_pf = plan_common.gen_cases(ctx, npf, False)
     plan = plan_common.run_plan_cases(ctx, cfgs_plan)
@@ -88,7 +88,7 @@ def run(ctx):
         fe_terms.append('(FE %d %d %s %s, %d)' % (c['n'], c['N'], dv.zlit(c['maxT']), 'true' if c['wait'] else 'false', mc))
         fe_kept.append((c, mc))
     ctx.phase('run')
-    all_cfgs = [pf_common.coq_cfg(c) for c in cfgs_plan + cfgs_pf]
+    all_cfgs = sorted(set(pf_common.coq_cfg(c) for c in cfgs_plan + cfgs_pf))
     res = plan_common.judge(ctx, 'c48', plan_common.IMPORTS48,
                             [('judge_plan48', [plan_common.plan_term(c, p) for c, p in plan]),
                              ('judge_pf48', [plan_common.pf_term(c, p) for c, p in pf]),
